@@ -94,7 +94,18 @@ type c20Case struct {
 	AdjWin int      `json:"adjwin"`
 	Filter int      `json:"filter"`
 	Obs    []c20Obs `json:"obs"`
+	// the bounds the statement speaks of are configuration, not constants:
+	// index into c20HeightMins / c20ErrorMaxs / c20Rhos (0 = the default)
+	HMin int `json:"hmin,omitempty"`
+	EMax int `json:"emax,omitempty"`
+	Rho  int `json:"rho,omitempty"`
 }
+
+var (
+	c20HeightMins = []float64{10.0e-6, 1.0e-3, 0.25, 0}
+	c20ErrorMaxs  = []float64{1.5, 0.5, 4.0}
+	c20Rhos       = []float64{150.0, 1.0}
+)
 
 var (
 	c20Weird = []float64{1e300, -1e300, math.MaxFloat64, -math.MaxFloat64, 1e154, 1e160, -1e160}
@@ -117,7 +128,10 @@ func genC20(t *rapid.T) c20Case {
 	c := c20Case{
 		Dim:    rapid.SampledFrom([]int{8, 8, 8, 1, 2, 3, 4, 5, 8, 16}).Draw(t, "dim"),
 		AdjWin: rapid.SampledFrom([]int{0, 1, 20}).Draw(t, "adjwin"),
-		Filter: rapid.SampledFrom([]int{1, 3}).Draw(t, "filter"),
+		Filter: rapid.SampledFrom([]int{1, 3, 2, 5}).Draw(t, "filter"),
+		HMin:   rapid.SampledFrom([]int{0, 0, 1, 2, 3}).Draw(t, "hmin"),
+		EMax:   rapid.SampledFrom([]int{0, 0, 1, 2}).Draw(t, "emax"),
+		Rho:    rapid.SampledFrom([]int{0, 0, 0, 1}).Draw(t, "rho"),
 	}
 	n := rapid.IntRange(1, 40).Draw(t, "n")
 	if rapid.IntRange(0, 9).Draw(t, "long") == 0 {
@@ -240,6 +254,9 @@ func c20Config(c c20Case) *coordinate.Config {
 	cfg.Dimensionality = uint(c.Dim)
 	cfg.AdjustmentWindowSize = uint(c.AdjWin)
 	cfg.LatencyFilterSize = uint(c.Filter)
+	cfg.HeightMin = c20HeightMins[c.HMin]
+	cfg.VivaldiErrorMax = c20ErrorMaxs[c.EMax]
+	cfg.GravityRho = c20Rhos[c.Rho]
 	return cfg
 }
 
@@ -320,7 +337,8 @@ func c20Same(a, b []c20Step) (int, bool) {
 }
 
 func bodyC20(c c20Case, x *vkit.Ctx) {
-	if c.Dim < 1 || c.Filter < 1 || c.AdjWin < 0 {
+	if c.Dim < 1 || c.Filter < 1 || c.AdjWin < 0 || c.HMin < 0 || c.HMin >= len(c20HeightMins) ||
+		c.EMax < 0 || c.EMax >= len(c20ErrorMaxs) || c.Rho < 0 || c.Rho >= len(c20Rhos) {
 		x.Inconclusive("invalid client configuration in case file")
 		return
 	}
@@ -459,6 +477,7 @@ func bodyC20(c c20Case, x *vkit.Ctx) {
 
 	x.Labelf("dim=%d", c.Dim)
 	x.Labelf("adjwin=%d,filter=%d", c.AdjWin, c.Filter)
+	x.Labelf("heightmin=%g,errormax=%g,rho=%g", cfg.HeightMin, cfg.VivaldiErrorMax, cfg.GravityRho)
 	if accepted > 0 {
 		x.Label("has-accepted")
 	}
